@@ -2,7 +2,7 @@
    Model: PL.HCM.Model (generic), PL.HCM.Load (load-only instance), specification PL.HCM.Periodic; tied to the code by the
    correspondence check of harness/props/c04.py.  Only statements, `exact`, Print Assumptions. *)
 From Coq Require Import Reals ZArith List Bool.
-From PL Require Import Rainflow.Model HCM.Model HCM.Load HCM.Periodic HCM.Inv HCM.LoadThm HCM.Tol.
+From PL Require Import Rainflow.Model HCM.Model HCM.Load HCM.Periodic HCM.Inv HCM.LoadThm HCM.Tol HCM.Dwell.
 Import ListNotations.
 Open Scope Z_scope.
 
@@ -75,6 +75,19 @@ Theorem tolerant_compare_hyp_sat :
   (e + e < tol)%R /\ (tol + e + e < c)%R.
 Proof. exact Tol.tolerant_hyp_sat. Qed.
 
+(* samples that repeat their predecessor do not change what the model records (records of every pass and the HCM memory after n further
+   passes), as long as process_hcm_first takes the same flush decision -- the only place where the NUMBER of repetitions is looked at ... *)
+Theorem squeeze_insensitive n s s' :
+  dedup s = dedup s' -> flush_first s = flush_first s' -> load_obs n s = load_obs n s'.
+Proof. exact (Dwell.squeeze_insensitive n s s'). Qed.
+Theorem squeeze_insensitive_hyp_sat :
+  dedup [1; -2; -2] = dedup [1; -2; -2; -2; -2] /\ flush_first [1; -2; -2] = flush_first [1; -2; -2; -2; -2] /\ [1; -2; -2] <> [1; -2; -2; -2; -2].
+Proof. exact Dwell.squeeze_insensitive_hyp_sat. Qed.
+(* ... in particular the length of a trailing plateau (dwell) of two or more samples is irrelevant, whatever the block before it is
+   (unbounded; justifies the dwell relation of c04.py stage D2a: plateau of 2 samples vs. plateau of L samples) *)
+Theorem dwell_insensitive n a x k : load_obs n (a ++ x :: x :: repeat x k) = load_obs n (a ++ [x; x]).
+Proof. exact (Dwell.dwell_insensitive n a x k). Qed.
+
 Print Assumptions hcm_never_stuck.
 Print Assumptions memory3_symmetric.
 Print Assumptions pass2_all_closed.
@@ -87,3 +100,6 @@ Print Assumptions pass_stationary_bounded.
 Print Assumptions tolerant_compare_is_level_compare.
 Print Assumptions level_abs_extent.
 Print Assumptions tolerant_compare_hyp_sat.
+Print Assumptions squeeze_insensitive.
+Print Assumptions squeeze_insensitive_hyp_sat.
+Print Assumptions dwell_insensitive.
